@@ -109,6 +109,8 @@ def run_property(prop, tier='quick', seed=0, jobs=None, limit=None, verbose=Fals
     jobs = jobs or int(os.environ.get('KV_JOBS', '0')) or min(16, os.cpu_count() or 4)
     opts = dict(getattr(mod, 'OPTS', {}))
     opts.setdefault('canary_every', 10)
+    opts.setdefault('fidelity_every', 25 if tier == 'quick' else 10)
+    opts.setdefault('cvc5_every', 0 if tier == 'quick' else 40)
     opts['tier'] = tier
     descs = list(mod.cases(tier, seed))
     for i, d in enumerate(descs):
@@ -212,6 +214,9 @@ def finish(mod, modname, prop, tier, seed, results, rec_funcs, wall, verbose=Fal
         'cases_by_status': by_status,
         'solver': {'engine': f'z3 {_z3v()}', **q, 'solver_seconds': round(solver_s, 3)},
         'canaries': {'asked': len(canaries), 'refuted_as_required': sum(1 for c in canaries if c == 'sat')},
+        'proxy_fidelity': {'cases_re-evaluated_on_exact_rationals': sum(1 for r in results if r.get('fidelity') == 'ok'),
+                           'skipped': sum(1 for r in results if r.get('fidelity') == 'skipped')},
+        'second_solver_cvc5': {v: sum(1 for r in results if r.get('cvc5') == v) for v in ('unsat', 'sat', 'unknown', 'n/a') if any(r.get('cvc5') == v for r in results)},
         'functions_encoded': getattr(mod, 'FUNCTIONS', []),
         'bounds': getattr(mod, 'BOUNDS', {}).get(tier, getattr(mod, 'BOUNDS', {})) if isinstance(getattr(mod, 'BOUNDS', {}), dict) else mod.BOUNDS,
         'outside_the_bound': getattr(mod, 'OUTSIDE', []),
